@@ -819,10 +819,10 @@ def strat_faults(tier):
 
 
 SUBS = [
-    Sub("roundtrip", check, strategy=strat_roundtrip, quick=200, thorough=2500, workers_quick=4,
+    Sub("roundtrip", check, strategy=strat_roundtrip, quick=400, thorough=2500, workers_quick=4,
         workers_thorough=16, budget_quick=27, budget_thorough=280,
         doc="every provider kind x content x save_as, no damage: what was persisted is what is loaded"),
-    Sub("faults", check, strategy=strat_faults, quick=250, thorough=2500, workers_quick=4,
+    Sub("faults", check, strategy=strat_faults, quick=450, thorough=2500, workers_quick=4,
         workers_thorough=16, budget_quick=27, budget_thorough=280,
         doc="a generated fault per metadata entry: loading never raises, intact entries load intact"),
 ]
